@@ -218,9 +218,12 @@ Definition observe (r : list gval * list gval) : observed :=
   let effs := rev (snd r) in
   {| o_result := fst r; o_calls := calls effs;
      o_cursor := field_after "lastBatchData" effs; o_state := field_after "lastState" effs |}.
+(* the translated functions that run inside this lemma file; every other call is a scripted collaborator *)
+Definition pub_funs : list (string * gfun) :=
+  filter (fun p => (fst p =? "Manager.publishBlockInternal") || (fst p =? "Manager.retrieveBatch") || (fst p =? "Manager.updateState")) gen_funs.
 Definition run_publish (w : pworld) : option observed :=
-  match lookup gen_funs "Manager.publishBlockInternal" with
-  | Some fn => interp (bind (exec 400 gen_funs (pglobals w) (start_env fn (Some (mobj w)) [VUnit]) [] (f_body fn))
+  match lookup pub_funs "Manager.publishBlockInternal" with
+  | Some fn => interp (bind (exec 400 pub_funs (pglobals w) (start_env fn (Some (mobj w)) [VUnit]) [] (f_body fn))
                             (fun r => RRet (observe r)))
   | None => None
   end.
